@@ -1695,6 +1695,7 @@ class IRGenerator:
 
         # Parse the route whitelist and populate any starting data types
         route_data_types = []
+        route_doc_routes = defaultdict(set)
         for namespace_name, route_reprs in route_whitelist.items():
             # Error out if user supplied nonexistent namespace
             if namespace_name not in self.api.namespaces:
@@ -1722,6 +1723,12 @@ class IRGenerator:
                 if route.doc is not None:
                     route_data_types.extend(
                         parse_data_types_from_doc_ref(self.api, route.doc, namespace_name))
+                    # Routes referenced by the doc of a whitelisted route are
+                    # kept, like those referenced by the doc of a data type.
+                    _, doc_routes_by_ns = parse_data_types_and_routes_from_doc_ref(
+                        self.api, route.doc, namespace_name)
+                    for doc_ns_name, doc_routes in doc_routes_by_ns.items():
+                        route_doc_routes[doc_ns_name].update(doc_routes)
 
         # Parse the datatype whitelist and populate any starting data types
         for namespace_name, datatype_names in self._routes['datatype_whitelist'].items():
@@ -1742,6 +1749,8 @@ class IRGenerator:
 
         # Recurse on dependencies
         output_types_by_ns, output_routes_by_ns = self._find_dependencies(route_data_types)
+        for namespace_name, doc_routes in route_doc_routes.items():
+            output_routes_by_ns[namespace_name].update(doc_routes)
 
         # Update the IR representation. This involves editing the data types and
         # routes for each namespace.
